@@ -157,7 +157,7 @@ def _decode_datagram(datagram: bytes):
         str(k).encode() if not isinstance(k, bytes) else k: v for k, v in primitive.items()
     }
 
-    if converted[b'0'] in [REQUEST_TYPE, ERROR_TYPE, RESPONSE_TYPE]:  # pylint: disable=unsubscriptable-object
+    if converted.get(b'0') in [REQUEST_TYPE, ERROR_TYPE, RESPONSE_TYPE]:
         datagram_type = converted[b'0']  # pylint: disable=unsubscriptable-object
     else:
         raise ValueError("invalid datagram type")
